@@ -82,18 +82,13 @@ def idcacheIndex (f : Frag) : List Entry → Except Err Frag
 /-- `ModelFile.idcache_remove(str)` -/
 def idcacheRemoveKey (f : Frag) (k : String) : Frag := { f with idc := ddel f.idc k }
 
-/-- `ModelFile.idcache_remove(element)`: raises KeyError when an xtype/href entry is missing -/
-def removeOk (f : Frag) (e : Entry) : Bool :=
-  (match e.xt with | some x => decide ((x, e.nid) ∈ f.xtc) | none => true) &&
-  (match e.href with | some h => (dget f.hrefs h).isSome | none => true)
-
+/-- `ModelFile.idcache_remove(element)`, one loop iteration: entries that are not indexed are skipped
+(`dict.pop(key, None)`, `suppress(KeyError)`) -/
 def removeEntry (f : Frag) (e : Entry) : Except Err Frag :=
-  if removeOk f e then
-    .ok { f with
-      idc := e.ids.foldl ddel f.idc
-      xtc := match e.xt with | some x => f.xtc.filter (· ≠ (x, e.nid)) | none => f.xtc
-      hrefs := match e.href with | some h => ddel f.hrefs h | none => f.hrefs }
-  else .error .keyError
+  .ok { f with
+    idc := e.ids.foldl ddel f.idc
+    xtc := match e.xt with | some x => f.xtc.filter (· ≠ (x, e.nid)) | none => f.xtc
+    hrefs := match e.href with | some h => ddel f.hrefs h | none => f.hrefs }
 
 def idcacheRemove (f : Frag) : List Entry → Except Err Frag
   | [] => .ok f
@@ -230,5 +225,33 @@ def step (l : Loader) : Op → Except Err Loader
 def run (l : Loader) : List Op → Except Err Loader
   | [] => .ok l
   | op :: ops => do let l' ← step l op; run l' ops
+
+end Capella.Index
+
+namespace Capella.Index
+
+/-- `ModelElement.__init__` inside `new_uuid`, failing after `nested` sub-objects were already built
+(each nested `__init__` appended and indexed its own element): the repaired roll-back un-indexes the
+partially built subtree, removes it, and `cleanup_after_failure` drops the reserved id.
+`nested` is arbitrary, so the failure point ranges over every prefix of the nested creations. -/
+def createFailing (f : Frag) (pos : Nat) (uuid : String) (outer : Entry) (nested : List Entry) :
+    Except Err Frag := do
+  let f1 := idcacheReserve f uuid                     -- generate_uuid
+  let f2 := insertSeg f1 pos (outer :: nested)        -- parent.append(elem); nested elements appended below it
+  let f3 ← idcacheIndex f2 nested                     -- each nested __init__ called idcache_index on itself
+  let f4 ← idcacheRemove f3 (outer :: nested)         -- except BaseException: idcache_remove(self._element)
+  let f5 := removeSeg f4 (outer :: nested)            --                       parent.remove(self._element)
+  pure (idcacheRemoveKey f5 uuid)                     -- new_uuid: cleanup_after_failure
+
+/-- the same roll-back as it was before the repair: nothing is un-indexed -/
+def createFailingOld (f : Frag) (pos : Nat) (uuid : String) (outer : Entry) (nested : List Entry) :
+    Except Err Frag := do
+  let f1 := idcacheReserve f uuid
+  let f2 := insertSeg f1 pos (outer :: nested)
+  let f3 ← idcacheIndex f2 nested
+  let f5 := removeSeg f3 (outer :: nested)
+  pure (idcacheRemoveKey f5 uuid)
+
+def keysOf (f : Frag) : List String := f.idc.map (·.1)
 
 end Capella.Index
